@@ -73,7 +73,7 @@ Section Proofs2.
   Theorem check_clean_implies_restorable_sel fuel sel :
     check B hash blen parse st fuel = Some [] ->
     nodup_keys B st = true -> sel_valid B st sel ->
-    forall r, In r (st_roots st) -> correct sel false fuel r = Some true.
+    forall r, In r (st_roots st) -> correct sel true fuel r = Some true.
   Proof.
     intros Hc Hn Hv r Hr. rewrite (correct_ext sel lookup (nodup_sel sel Hn Hv)).
     apply check_clean_implies_restorable_lemma; assumption.
@@ -126,14 +126,16 @@ Section Proofs2.
   Theorem packs_to_read_sufficient_lemma fuel used :
     check_trees B blen parse st fuel = Some ([], used) ->
     forall r, In r (st_roots st) ->
-      load_tree B blen parse st r <> None /\
+      (exists p b, lookup BTree r = Some (p, b) /\ In p used) /\
       exists ks, fetched B blen parse st fuel r = Some ks /\
                  forall t k, In (t, k) ks -> exists p b, lookup t k = Some (p, b) /\ In p used.
   Proof.
-    intros Ht r Hr. destruct (check_trees_roots B blen parse st fuel used Ht r Hr) as [ps [Hw Hi]].
-    destruct (walk_covers fuel r ps Hw) as [Hl [ks [Hk Hc]]]. split; [assumption|].
-    exists ks. split; [assumption|]. intros t k Hin. destruct (Hc t k Hin) as [p [b [H1 H2]]].
-    exists p, b. split; [assumption|apply Hi; assumption].
+    intros Ht r Hr. destruct (check_trees_roots B blen parse st fuel used Ht r Hr) as [[ps [Hw Hi]] Hroot].
+    destruct (walk_covers fuel r ps Hw) as [Hl [ks [Hk Hc]]]. split.
+    - unfold load_tree in Hl. destruct (lookup BTree r) as [[p b]|] eqn:E; [|contradiction].
+      exists p, b. split; [reflexivity|]. eapply Hroot; eauto.
+    - exists ks. split; [assumption|]. intros t k Hin. destruct (Hc t k Hin) as [p [b [H1 H2]]].
+      exists p, b. split; [assumption|apply Hi; assumption].
   Qed.
 
   (* and a clean check has read every one of those packs with check_pack finding nothing *)
